@@ -355,3 +355,11 @@ MUTANTS = [
       "                elif command == \"CLOSE\":\n                    sub_id = str(message[1])\n                    await storage.unsubscribe(client_id, sub_id)\n                    await storage.delete_event(sub_id)", "C08.reach"),
 ]
 EQUIVS = []
+
+# functions whose syntactic mutants are used for the thorough tier's sensitivity figure (sa/automut.py)
+ANCHORS = [
+    "nostr_relay.storage.db:DBStorage.process_tags",
+    "nostr_relay.storage.db:DBStorage.pre_save",
+    "nostr_relay.storage.db:DBStorage.post_save",
+    "nostr_relay.storage.kv:WriterThread._post_save",
+]
